@@ -108,15 +108,42 @@ def worker_init():
 # real side
 # ----------------------------------------------------------------------------------------------
 
-_BINS = None
+_BINS = {}
 
 
-def _bins():
-    global _BINS
-    if _BINS is None:
-        _BINS = pd.DataFrame({"chrom": ["c0", "c0"], "start": np.array([0, 10], dtype=np.int64),
-                              "end": np.array([10, 20], dtype=np.int64)})
-    return _BINS
+def _bins(var=False):
+    if var not in _BINS:
+        ends = [10, 25] if var else [10, 20]
+        _BINS[var] = pd.DataFrame({"chrom": ["c0", "c0"], "start": np.array([0, ends[0]], dtype=np.int64),
+                                   "end": np.array(ends, dtype=np.int64)})
+    return _BINS[var]
+
+
+# content ids name WHAT is stored, so that a re-created collection can be told from a fresh one by type as well:
+# 500..699 = float64 counts (pixel value id + 0.25), >= 700 = variable-width bins, otherwise int32 counts, fixed bins
+def _klass(c):
+    return "float" if 500 <= c < 700 else ("var" if c >= 700 else "int")
+
+
+# directory layout of the real files: "flat" = both in the working directory; "split" = in two different
+# sub-directories, neither being the working directory (an external link must not depend on where the files are
+# relative to each other or to the reader).  The model knows files by the flat names.
+_LAYOUT = {"split": False}
+_SPLIT = {"A.cool": "da/A.cool", "B.cool": "db/B.cool", "Z.cool": "dz/Z.cool"}
+
+
+def _set_layout(case):
+    _LAYOUT["split"] = case.get("layout") == "split"
+
+
+def _rf(f):
+    return _SPLIT.get(f, f) if _LAYOUT["split"] else f
+
+
+def _real(uri):
+    parts = uri.split("::")
+    parts[0] = _rf(parts[0])
+    return "::".join(parts)
 
 
 def _do(op):
@@ -124,20 +151,27 @@ def _do(op):
     try:
         k = op["op"]
         if k == "create":
-            px = pd.DataFrame({"bin1_id": np.array([0], dtype=np.int64), "bin2_id": np.array([1], dtype=np.int64),
-                               "count": np.array([op["content"]], dtype=np.int32)})
-            cooler.create_cooler(op["uri"], _bins(), px, mode=op["mode"])
+            c = op["content"]
+            kl = _klass(c)
+            if kl == "float":
+                px = pd.DataFrame({"bin1_id": np.array([0], dtype=np.int64), "bin2_id": np.array([1], dtype=np.int64),
+                                   "count": np.array([c + 0.25], dtype=np.float64)})
+                cooler.create_cooler(_real(op["uri"]), _bins(), px, dtypes={"count": np.float64}, mode=op["mode"])
+            else:
+                px = pd.DataFrame({"bin1_id": np.array([0], dtype=np.int64), "bin2_id": np.array([1], dtype=np.int64),
+                                   "count": np.array([c], dtype=np.int32)})
+                cooler.create_cooler(_real(op["uri"]), _bins(kl == "var"), px, mode=op["mode"])
         elif k == "note":
-            with h5py.File(op["file"], "a") as f:
+            with h5py.File(_rf(op["file"]), "a") as f:
                 f.attrs["note"] = op["value"]
         elif k == "cp":
-            fileops.cp(op["src"], op["dst"], overwrite=op.get("overwrite", False))
+            fileops.cp(_real(op["src"]), _real(op["dst"]), overwrite=op.get("overwrite", False))
         elif k == "mv":
-            fileops.mv(op["src"], op["dst"], overwrite=op.get("overwrite", False))
+            fileops.mv(_real(op["src"]), _real(op["dst"]), overwrite=op.get("overwrite", False))
         elif k == "ln":
-            fileops.ln(op["src"], op["dst"], soft=False, overwrite=op.get("overwrite", False))
+            fileops.ln(_real(op["src"]), _real(op["dst"]), soft=False, overwrite=op.get("overwrite", False))
         elif k == "lns":
-            fileops.ln(op["src"], op["dst"], soft=True, overwrite=op.get("overwrite", False))
+            fileops.ln(_real(op["src"]), _real(op["dst"]), soft=True, overwrite=op.get("overwrite", False))
         else:
             raise AssertionError(k)
         return "ok"
@@ -157,14 +191,15 @@ def _uri(f, p, alt):
 _OBS_CACHE = {}
 
 
-def _observe(alt):
+def _observe(alt, skip=frozenset()):
     """the observation is a function of the bytes of the two files (external links name files relatively), so a
     state whose files are byte-identical to one already observed — typically after an op that failed without
-    effect — is not observed again"""
-    key = [alt]
+    effect — is not observed again.  `skip`: files whose namespace the model says is cyclic — list_coolers and the
+    reads are not attempted there (h5py recurses until RecursionError), is_cooler is."""
+    key = [alt, _LAYOUT["split"], tuple(sorted(skip))]
     for f in FILES:
         try:
-            with open(f, "rb") as fh:
+            with open(_rf(f), "rb") as fh:
                 key.append(hashlib.md5(fh.read()).hexdigest())
         except OSError:
             key.append(None)
@@ -173,40 +208,67 @@ def _observe(alt):
     if hit is None:
         if len(_OBS_CACHE) > 4000:
             _OBS_CACHE.clear()
-        hit = _OBS_CACHE[key] = json.dumps(_observe_raw(alt))
+        hit = _OBS_CACHE[key] = json.dumps(_observe_raw(alt, skip))
     return json.loads(hit)
 
 
-def _observe_raw(alt):
+def _read_one(uri):
+    """[content id, sum] of a collection; the id is given only if dtype, bin type and the type of `sum` are those
+    of the id's class — a collection must read like a fresh creation of the same data"""
+    clr = cooler.Cooler(uri)
+    col = clr.pixels()[:]["count"]
+    v = col.iloc[0]
+    info = clr.info
+    sm, bt = info["sum"], info["bin-type"]
+    isfloat = col.dtype.kind == "f"
+    cid = int(v)
+    if isfloat and abs(float(v) - cid - 0.25) > 1e-9:
+        return ["value:%r" % float(v), None]
+    kl = _klass(cid)
+    seen = ("float" if isfloat else "int", "variable" if bt == "variable" else "fixed")
+    want = ("float" if kl == "float" else "int", "variable" if kl == "var" else "fixed")
+    if seen != want:
+        return ["class:%s/%s" % seen, None]
+    if kl == "float":
+        ok = isinstance(sm, (float, np.floating)) and abs(float(sm) - cid - 0.25) < 1e-9
+    else:
+        ok = isinstance(sm, (int, np.integer)) and not isinstance(sm, bool)
+    s = str(int(sm)) if ok else "%r:%s" % (sm, type(sm).__name__)
+    return [cid, s]
+
+
+def _observe_raw(alt, skip=frozenset()):
     obs = {}
     for f in FILES:
-        o = {"exists": os.path.exists(f)}
-        try:
-            o["list"] = {"ok": sorted(fileops.list_coolers(f))}
-        except Exception as e:  # noqa
-            o["list"] = {"err": errclass(e)}
+        rf = _rf(f)
+        o = {"exists": os.path.exists(rf)}
+        if f in skip:
+            o["list"] = "cyclic"
+        else:
+            try:
+                o["list"] = {"ok": sorted(fileops.list_coolers(rf))}
+            except Exception as e:  # noqa
+                o["list"] = {"err": errclass(e)}
         isd = {}
         for i, c in enumerate(CANDS):
             try:
-                isd[c] = bool(fileops.is_cooler(_uri(f, c, alt ^ (i % 2 == 1))))
+                isd[c] = bool(fileops.is_cooler(_uri(rf, c, alt ^ (i % 2 == 1))))
             except Exception as e:  # noqa
                 isd[c] = {"err": errclass(e)}
         o["is"] = isd
         rd = {}
-        listed = o["list"].get("ok", [])
-        for p in sorted(set(listed) | {c for c in CANDS if isd[c] is True}):
-            try:
-                clr = cooler.Cooler(_uri(f, p, alt))
-                v = int(clr.pixels()[:]["count"].iloc[0])
-                s = str(int(clr.info["sum"]))
-                rd[p] = [v, s]
-            except Exception:  # noqa
-                rd[p] = [None, None]
+        if f not in skip:
+            listed = o["list"].get("ok", [])
+            for p in sorted(set(listed) | {c for c in CANDS if isd[c] is True}):
+                try:
+                    rd[p] = _read_one(_uri(rf, p, alt))
+                except Exception:  # noqa
+                    rd[p] = [None, None]
         o["read"] = rd
         note = None
         if o["exists"]:
             try:
-                with h5py.File(f, "r") as h:
+                with h5py.File(rf, "r") as h:
                     note = h.attrs.get("note", None)
                     note = None if note is None else str(note)
             except Exception:  # noqa
@@ -220,12 +282,15 @@ def _canon_obs(obs, cls):
     out = {}
     for f, o in obs.items():
         l = o["list"]
-        if isinstance(l, dict) and "ok" in l:
+        rd = o["read"]
+        if l == "cyclic":
+            rd = {}                      # cyclic namespace: only existence, is_cooler and the attribute are compared
+        elif isinstance(l, dict) and "ok" in l:
             l = {"ok": sorted(l["ok"])}
         elif isinstance(l, dict) and not cls:
             l = "err"
         isd = {c: (v if not isinstance(v, dict) or cls else "err") for c, v in o["is"].items()}
-        out[f] = {"exists": o["exists"], "list": l, "is": isd, "read": {k: list(v) for k, v in sorted(o["read"].items())},
+        out[f] = {"exists": o["exists"], "list": l, "is": isd, "read": {k: list(v) for k, v in sorted(rd.items())},
                   "note": o["note"]}
     return out
 
@@ -291,13 +356,18 @@ class Sess:
 
     @staticmethod
     def _corner(m):
+        """the model declines to describe the step (it is not executed)"""
         oc = m["outcome"]
         if isinstance(oc, dict) and "corner" in oc:
             return oc["corner"]
-        for f, o in m.get("obs", {}).items():
-            if o["list"] == "cyclic":
-                return "cyclic namespace (link to an ancestor)"
         return None
+
+    @staticmethod
+    def _cyclic(m):
+        """files whose namespace is cyclic after the step: the step IS executed and existence, is_cooler (which must
+        answer False, never raise, on the paths of the cycle) and the attribute are compared; list_coolers and reads
+        are not attempted, and the history ends there"""
+        return frozenset(f for f, o in m.get("obs", {}).items() if o["list"] == "cyclic")
 
     def _canon(self, m):
         return {"outcome": _canon_out(m["outcome"], self.cls), "obs": _canon_obs(m["obs"], self.cls)}
@@ -347,14 +417,15 @@ class Sess:
         why = self._corner(m)
         if why:
             return ("corner", why)
+        cyc = self._cyclic(m)
         impl_out = _do(op)
-        impl_obs = _observe(alt)
+        impl_obs = _observe(alt, cyc)
         impl = {"outcome": _canon_out(impl_out, self.cls), "obs": _canon_obs(impl_obs, self.cls)}
         mod = self._canon(m)
         if impl == mod:
             self.vops.append(dict(op, v=_vdict(self.flags)))
             self.trace.append(impl)
-            return None
+            return ("corner", "cyclic namespace (is_cooler compared, listing not attempted)") if cyc else None
         ex = self._explain(op, impl)
         if ex is not None and ex[0] == "corner":
             return ex
@@ -365,7 +436,7 @@ class Sess:
             self.trace.append(impl)
             self.dev.append({"ids": [FID[x] for x in sub], "step": k, "from": first, "ops": [_strip(o) for o in vops],
                              "flags": [o["v"] for o in vops], "impl_trace": self.trace[first:]})
-            return None
+            return ("corner", "cyclic namespace (is_cooler compared, listing not attempted)") if cyc else None
         diff = _diff(impl, mod)
         return ("mismatch", {"step": k, "op": op, "diff": diff, "impl_outcome": impl_out if impl_out == "ok" else list(impl_out),
                              "model_outcome": m["outcome"], "flags_on": sorted(self.flags)})
@@ -407,6 +478,8 @@ class Scratch:
         d = os.path.join(self.base, f"s{self.n}")
         if like is None:
             os.makedirs(d)
+            for sub in ("da", "db", "dz"):
+                os.makedirs(os.path.join(d, sub))
         else:
             shutil.copytree(like, d)
         return d
@@ -436,6 +509,7 @@ def _finish(sess, stats, report_known):
 
 
 def _history(case, cls=False):
+    _set_layout(case)
     ops = case["ops"]
     sc = Scratch()
     stats = {"steps": 0}
@@ -467,6 +541,7 @@ def _strip_alt(op):
 def _fan(case, cls=False):
     if "ops" in case:          # a fan case shrunk to the one failing history
         return _history(case, cls)
+    _set_layout(case)
     prefix = INITS[case["init"]] + case["prefix"]
     alpha = ALPHABETS[case["alphabet"]]()
     lo, hi = case.get("lo", 0), case.get("hi", len(alpha))
@@ -632,7 +707,7 @@ def _model_listing(ops):
         return [], False
     r = drv().ask("C15.run", ops=[_strip_alt(o) for o in ops], files=[FA, FB], cands=[], observe_from=len(ops) - 1)
     last = r["steps"][-1]
-    corner = Sess._corner(last) is not None
+    corner = Sess._corner(last) is not None or bool(Sess._cyclic(last))
     out = []
     for f in (FA, FB):
         l = last["obs"].get(f, {}).get("list", {})
